@@ -613,7 +613,9 @@ def gen_size_case(rng, cid, tier, big=False):
     lg_k = rng.choice([5, 5, 6, 7, 8])
     cfg, theta0 = cfg_of(rng, lg_k=lg_k, p=rng.choice([1.0, 1.0, 0.5]))
     seed = cfg[3]
-    top = (17 if big else rng.choice([10, 12, 13])) if tier == "quick" else (22 if big else rng.choice([12, 14, 16]))
+    # (thorough: the one big stream had 2^22 updates; its single parsed case - every 64-bit hash is a 65-constructor positive -
+    #  exceeded the driver's 12 GB limit ("Fatal error: out of memory", observed 2026-10-02), so it is 2^20 now)
+    top = (17 if big else rng.choice([10, 12, 13])) if tier == "quick" else (20 if big else rng.choice([12, 14, 16]))
     style = rng.choice(["distinct", "distinct", "repeated", "descending"])
     ops = [(7, [])]
     x0 = rng.getrandbits(40)
